@@ -391,6 +391,9 @@ switchpos:
 			}
 			return bval / v, nil
 		case token.Rem:
+			if v == 0 {
+				return nil, ErrZeroDivision
+			}
 			return bval % v, nil
 		case token.And:
 			return bval & v, nil
@@ -401,8 +404,14 @@ switchpos:
 		case token.AndNot:
 			return bval &^ v, nil
 		case token.Shl:
+			if v < 0 {
+				return nil, errNegativeShift
+			}
 			return bval << v, nil
 		case token.Shr:
+			if v < 0 {
+				return nil, errNegativeShift
+			}
 			return bval >> v, nil
 		case token.Less:
 			return Bool(bval < v), nil
@@ -428,6 +437,9 @@ switchpos:
 			}
 			return bval / v, nil
 		case token.Rem:
+			if v == 0 {
+				return nil, ErrZeroDivision
+			}
 			return bval % v, nil
 		case token.And:
 			return bval & v, nil
